@@ -152,7 +152,7 @@ mode=$(cat "$d/mode")
 #   gatefail_after_<i>:<file>  after chunk i wait until <file> exists, then exit 3
 if [ -n "$FAKEGO_MODE" ]; then mode="${FAKEGO_MODE%%:*}"; gate="${FAKEGO_MODE#*:}"; fi
 waitgate() { n=0; while [ ! -e "$gate" ] && [ $n -lt 1000 ]; do sleep 0.02; n=$((n+1)); done; }
-case "$mode" in fail_after_0) exit 3;; kill_after_0) kill -9 $PPID; exit 3;; esac
+case "$mode" in fail_after_0) exit 3;; kill_after_0) kill -9 $PPID; exit 3;; sig_after_0) kill -KILL $$;; esac
 i=0
 for c in "$d"/chunk_*; do
   i=$((i+1))
@@ -160,6 +160,7 @@ for c in "$d"/chunk_*; do
   case "$mode" in
     fail_after_$i) exit 3;;
     kill_after_$i) sleep 0.15; kill -9 $PPID; exit 3;;
+    sig_after_$i) kill -KILL $$;;
     gate_after_$i) waitgate;;
     gatefail_after_$i) waitgate; exit 3;;
   esac
